@@ -3,6 +3,8 @@ C01 — SynthDef compilation preserves the meaning of the graph function: proper
 -/
 import Sc3Verif.C01.Lemmas
 import Sc3Verif.C01.ValidateLemmas
+import Sc3Verif.C01.GenClasses
+import Sc3Verif.C01.ClassesRef
 namespace Sc3Verif.C01
 
 /-! ### each operator carries the server opcode of that operator -/
@@ -20,6 +22,14 @@ theorem every_alias_same_index :
     (∀ p ∈ unopsList.zipIdx, ∀ name ∈ p.1, spindexOpname name = some (p.2, p.1.headD "")) ∧
     (∀ p ∈ binopsList.zipIdx, ∀ name ∈ p.1, spindexOpname name = some (p.2, p.1.headD "")) := by
   constructor <;> decide +kernel
+
+/-! ### which units may be dropped, which order the units created after them -/
+
+/-- The class table read from the code on this run (resolved `_optimize_graph` performs dead code
+    elimination or not; `WidthFirstUGen` ancestry) agrees, class by class, with the reference:
+    exactly the side-effect-free classes are droppable and exactly the units with ordering side
+    effects are width-first (421 classes; classes unknown to the reference are unconstrained). -/
+theorem class_flags_table : classTable = classRef := by decide +kernel
 
 /-! ### constructor shortcuts are ring identities -/
 
